@@ -150,3 +150,9 @@ class Inline:
   instead of being replaced by a contract."""
   def __init__(self, target):
     self.target = target
+
+
+class FString:
+  """f-string value: list of parts (python str literals and evaluated values)"""
+  def __init__(self, parts):
+    self.parts = parts
